@@ -55,7 +55,9 @@ RULE = ("case = (generated program as in C01 with 0..3 snapshots (named / unname
         "unnamed capture with 0 or 2 parameters, snapshot without postcondition below it, OLD.<unknown>) x callable "
         "kind x sync/async. Oracle: capture count/position and the tokens seen through OLD equal the reference. "
         "non-trivial = precondition fails with snapshots present, or the body mutates a captured argument, or a "
-        "snapshot is inherited.")
+        "snapshot is inherited. Plus directed families: odd names, snapshots added after class creation, captures that "
+        "call the very callable they belong to (function/method/static x sync/async x direct/helper x 1..2 snapshots x 3 "
+        "consecutive calls: each capture exactly once per checked call).")
 ASSUMPTIONS = ["a snapshot declared at the root of a diamond is not generated (rejection as duplicate is unspecified)"]
 
 
@@ -175,6 +177,8 @@ def directed(ctx, only=None):
         odd_names(ctx)
     if only in (None, "posthoc-duplicates"):
         posthoc_duplicates(ctx)
+    if only in (None, "reentrant-captures"):
+        reentrant_captures(ctx)
     # OLD.<unknown> -> AttributeError naming the attribute
     if only in (None, "old-unknown"):
         @icontract.snapshot(lambda x: x, name="known")
@@ -201,6 +205,75 @@ def directed(ctx, only=None):
             if got != "ok":
                 ctx.fail("OLD-unknown|%s" % label, {"directed": "old-unknown"},
                          "reading OLD.nope must raise an AttributeError naming it, got: %s" % got)
+
+
+def reentrant_captures(ctx):
+    """A capture that calls the very callable it belongs to - a query whose previous value is captured
+    (`@snapshot(lambda self: self.total(), name="total")` on `total` itself), directly or through a helper - is still
+    evaluated exactly once per checked call (C10: the nested call is a plain call while the function's contracts are being
+    evaluated). Enumerated: function / method / static method x sync / async x direct / through a helper x 1..3
+    consecutive checked calls x one or two such snapshots."""
+    import itertools
+    import icontract
+    from vf.progmodel.run import drive
+
+    for kind, is_async, via, n_snaps in itertools.product(("function", "method", "static"), (False, True), ("direct", "helper"), (1, 2)):
+        log = []
+        ns = {"icontract": icontract, "log": log}
+        A, AW = ("async ", "await ") if is_async else ("", "")
+        if is_async:
+            # the capture hands out the coroutine of the nested call; it is awaited by the library
+            cap_body = "return target(%s)"
+        else:
+            cap_body = "return target(%s)"
+        selfarg = "self" if kind == "method" else ""
+        src = ["def helper(*a):", "    return TARGET[0](*a)",
+               "def cap1(%s):" % selfarg, "    log.append('cap1')", "    return %s(%s)" % ("helper" if via == "helper" else "TARGET[0]", selfarg),
+               "def cap2(%s):" % selfarg, "    log.append('cap2')", "    return %s(%s)" % ("helper" if via == "helper" else "TARGET[0]", selfarg),
+               "def post(OLD):", "    log.append('post')", "    return OLD.one is not None"]
+        decos = ["@icontract.snapshot(cap1, name='one')"] + (["@icontract.snapshot(cap2, name='two')"] if n_snaps == 2 else []) + [
+            "@icontract.ensure(post)"]
+        ind = "" if kind == "function" else "    "
+        if kind != "function":
+            src.append("class K:")
+        if kind == "static":
+            src.append(ind + "@staticmethod")
+        src += [ind + d for d in decos]
+        src += [ind + "%sdef total(%s):" % (A, selfarg), ind + "    log.append('body')", ind + "    return 5"]
+        ns["TARGET"] = [None]
+        label = "%s%s, capture calls it %s, %d snapshot(s)" % ("async " if is_async else "", kind, via, n_snaps)
+        try:
+            exec("\n".join(src), ns)
+            if kind == "function":
+                ns["TARGET"][0] = ns["total"]
+                top = ns["total"]
+            elif kind == "method":
+                ns["TARGET"][0] = ns["K"].total
+                top = ns["K"]().total
+            else:
+                ns["TARGET"][0] = ns["K"].total
+                top = ns["K"].total
+            got = []
+            for _ in range(3):
+                del log[:]
+                try:
+                    r = top()
+                    if is_async:
+                        r = drive(r)
+                    got.append((r, list(log)))
+                except RecursionError:
+                    got.append(("RecursionError", len(log)))
+                except BaseException as e:  # noqa
+                    got.append((type(e).__name__, str(e)[:80]))
+        except BaseException as e:  # noqa
+            got = ("definition failed", type(e).__name__, str(e)[:120])
+        one = (["cap2", "body"] if n_snaps == 2 else []) + ["cap1", "body"] + ["body", "post"]  # nearest the function first
+        want = [(5, one)] * 3
+        ctx.case(["reentrant-capture", kind, is_async, via, n_snaps], True, sample={"directed": label, "outcome": str(got)[:120]})
+        ctx.count("directed:reentrant-captures")
+        if got != want:
+            ctx.fail("reentrant-capture|%s|%s|%s" % (kind, "async" if is_async else "sync", via), {"directed": "reentrant-captures"},
+                     "%s: three consecutive calls, expected each to return 5 with the events %r; got %r" % (label, one, got))
 
 
 def odd_names(ctx):
